@@ -48,6 +48,11 @@ type RecDB struct {
 	// database (for a map-backed DB: the committed image itself) was modified outside a commit.
 	handed   []handedOut
 	AliasErr string // the first violation seen
+	// Writes counts the Put/Delete calls that reached the database; when it reaches
+	// CrashAtWrite (> 0) the write is NOT performed and the call panics with CrashSignal:
+	// the process stops in the middle of a step (or of a cache flush)
+	Writes       int
+	CrashAtWrite int
 }
 
 type handedOut struct {
@@ -85,8 +90,18 @@ func (b recBucket) Get(key []byte) []byte {
 	b.r.hand(b.name, key, v)
 	return v
 }
-func (b recBucket) Put(key, value []byte) error { return b.inner.Put(key, value) }
-func (b recBucket) Delete(key []byte) error     { return b.inner.Delete(key) }
+
+// CrashSignal is what the recording database panics with at CrashAtWrite.
+const CrashSignal = "crashSignal: the process stops here"
+
+func (b recBucket) tick() {
+	b.r.Writes++
+	if b.r.CrashAtWrite > 0 && b.r.Writes == b.r.CrashAtWrite {
+		panic(CrashSignal)
+	}
+}
+func (b recBucket) Put(key, value []byte) error { b.tick(); return b.inner.Put(key, value) }
+func (b recBucket) Delete(key []byte) error     { b.tick(); return b.inner.Delete(key) }
 func (b recBucket) Iter() iter.Seq2[[]byte, []byte] {
 	return func(yield func([]byte, []byte) bool) {
 		for k, v := range b.inner.Iter() {
